@@ -36,6 +36,18 @@ def _class_summary(I):
     cname = SStr(I.fresh("class_name", z3.StringSort()))
     info = SObj(Class, {"name": cname, "module_name": SStr(I.fresh("module_name", z3.StringSort()))})
     I.contracts[f"{P}.schemas:Class.from_string"] = lambda I2, a, k: info
+    asked = []
+
+    def module_name_taken(I2, a, k):
+        # callee summary (its own inductive contract: module_name_taken_contract): the answer is an unknown boolean; the
+        # caller's clause needs to know on which table and for which class it was asked and what it answered
+        me = k.get("self", a[0] if a else None)
+        ci = a[1] if len(a) > 1 else (k.get("class_info") if "class_info" in k else (a[0] if a and a[0] is not me else None))
+        ans = bool(I2.branch_free())
+        asked.append((me.fields.get("classes_by_name") if isinstance(me, SObj) else None, ci, ans))
+        return ans
+    I.contracts[f"{P}.schemas:Schemas.module_name_taken"] = module_name_taken
+    info.module_asked = asked
     pc = z3.Function("pascal_case", z3.StringSort(), z3.StringSort())       # deterministic (triple: Engine A)
     I.contracts["openapi_python_client.utils:pascal_case"] = lambda I2, a, k: SStr(pc(I2.to_str_term(a[0] if a else k["value"])))
     return info, cname
@@ -68,6 +80,10 @@ def _table_clause(get_final, get_consulted, allow_same_enum):
             ok_before = allow_same_enum and ctx.inputs.get("same_enum") is not None and \
                 present[0][1] is ctx.inputs["same_enum"] and ctx.inputs.get("values_equal_taken", lambda: False)()
         if not ok_before:
+            return False
+        # the module the class is written to: the consulted table was asked whether another class already owns it -- and said no
+        asked = ctx.inputs.get("module_asked")
+        if asked is not None and not any(t is consulted and ci is ctx.inputs["info"] and ans is False for t, ci, ans in asked):
             return False
         # frame: the final table is a copy of the consulted one (same factory, entries it knew) plus the one store
         if getattr(final, "parent", None) is not consulted:
@@ -120,7 +136,7 @@ def model_build_contract():
         kw["roots"] = caller_roots
         return SFunc("pyfunc", MP.ModelProperty.build.__func__, self_val=MP.ModelProperty), [], kw, \
             {"cname": cname, "consulted": cbn1 if process else cbn0, "process": process, "caller_roots": caller_roots,
-             "seen_roots": seen_roots}
+             "seen_roots": seen_roots, "info": info, "module_asked": info.module_asked}
 
     def _covers(I, rootset, caller, cname):
         """does the set value contain every caller root (reference paths AND class names) and the model's class name?"""
@@ -242,7 +258,8 @@ def enum_build_contract(literal=False):
         kw = dict(data=data, name=SStr(z3.Const("name", z3.StringSort())), schemas=schemas0,
                   required=SBool(z3.Const("required", z3.BoolSort())),
                   parent_name=SStr(z3.Const("parent_name", z3.StringSort())) if has_parent else "", config=config)
-        inputs = {"cname": cname, "consulted": cbn0, "holder": holder, "same": same}
+        inputs = {"cname": cname, "consulted": cbn0, "holder": holder, "same": same, "info": info,
+                  "module_asked": info.module_asked}
         return SFunc("pyfunc", klass.build.__func__, self_val=klass), [], kw, inputs
 
     base = _table_clause(None, lambda ctx: ctx.inputs["consulted"], True)
@@ -257,7 +274,8 @@ def enum_build_contract(literal=False):
     clauses = [Clause("never-overwrites", clause,
                       statement="a returned (Literal)EnumProperty is registered under a class name that was absent from the table or "
                                 "held an EnumProperty with equal members (the same inline enum met twice is shared); any other "
-                                "occupant yields a PropertyError; every other entry of the table is kept")]
+                                "occupant yields a PropertyError; every other entry of the table is kept; the table was asked "
+                                "(Schemas.module_name_taken) whether another class owns the module, and answered no")]
     return FnContract(Q, [Case("registration", make, clauses, raises=(), props=["C09", "C07", "C12", "C14"])])
 
 
@@ -265,8 +283,78 @@ def literal_enum_build_contract():
     return enum_build_contract(literal=True)
 
 
+def module_name_taken_contract():
+    """Schemas.module_name_taken(class_info) for a class table of ANY size (inductive: loop invariant over the items):
+         returns False  =>  no entry under another class name has a class_info whose module_name equals class_info.module_name
+                            (generic entry at position ig)
+         returns True   =>  the entry the scan stopped at is such an entry
+       So two classes with different names are never written to one models/<module>.py (C09 modules, C01, C07)."""
+    Q = f"{P}.schemas:Schemas.module_name_taken"
+
+    def make(I):
+        from openapi_python_client.parser.properties.schemas import Schemas
+        from pyvc.symexec import LoopSpec, SSeq
+        Z = I.Z
+        S, B = z3.StringSort(), z3.BoolSort()
+        base = z3.Const("class_table_items", z3.SeqSort(Z.JV))
+        keyF = z3.Function("entry_class_name", Z.JV, S)
+        has_ci = z3.Function("entry_has_class_info", Z.JV, B)
+        modF = z3.Function("entry_module_name", Z.JV, S)
+        my_name, my_mod = z3.Const("class_name", S), z3.Const("module_name", S)
+
+        def entry(v):
+            e = SOpaque("table entry", cls=object)
+            if I.branch(has_ci(v.t)):
+                e.attrs["class_info"] = SOpaque("class_info of an entry", attrs={"module_name": SStr(modF(v.t)), "name": SStr(keyF(v.t))})
+            else:
+                if I.branch_free():
+                    e.attrs["class_info"] = None
+                # else: the attribute does not exist at all (getattr default)
+            return STuple([SStr(keyF(v.t)), e])
+
+        class Table(SOpaque):
+            def getattr(self, I2, name):
+                if name == "items":
+                    return SFunc("model", lambda I3, a, k: SSeq(base, None, [entry]))
+                if name == "values":
+                    return SFunc("model", lambda I3, a, k: SSeq(base, None, [lambda v: entry(v).items[1]]))
+                raise Unsupported(f"dict method {name} on the class table")
+        table = Table("classes_by_name", cls=dict)
+        me = SObj(Schemas, {"classes_by_reference": SOpaque("cbr"), "dependencies": SOpaque("deps"), "classes_by_name": table,
+                            "models_to_process": SList(), "errors": SList()})
+        info = SOpaque("class_info", attrs={"name": SStr(my_name), "module_name": SStr(my_mod)})
+        ig = z3.Int("ig")
+        I.assume(z3.And(0 <= ig, ig < z3.Length(base)))
+
+        def conflict(x):
+            return z3.And(keyF(x) != my_name, has_ci(x), modF(x) == my_mod)
+
+        def inv(I2, loc, seen):
+            return z3.Implies(ig < z3.Length(seen), z3.Not(conflict(base[ig])))
+        I.loop_specs[(Q, 0)] = LoopSpec(inv, {"other": lambda I2: SOpaque("other")})
+        return SFunc("pyfunc", Schemas.module_name_taken, self_val=me), [info], {}, \
+            {"base": base, "ig": ig, "conflict": conflict, "empty": z3.Length(base) == 0}
+
+    def false_means_free(ctx):
+        i = ctx.inputs
+        v = ctx.value
+        if v is False:
+            return z3.Not(i["conflict"](i["base"][i["ig"]]))
+        if v is True:
+            at = ctx.I.loop_index
+            if at is None:
+                return False
+            return z3.And(0 <= at, at < z3.Length(i["base"]), i["conflict"](i["base"][at]))
+        return False
+
+    cl = Clause("taken-iff-another-class-owns-the-module", false_means_free,
+                statement="False: no entry of the table (generic position) under a different class name has the same module name; "
+                          "True: the entry the scan stopped at is one -- for a table of any size", props=["C09", "C01", "C07"])
+    return FnContract(Q, [Case("any-table", make, [cl], raises=(), props=["C09", "C01", "C07"])])
+
+
 def all_contracts():
-    return [model_build_contract(), enum_build_contract(), literal_enum_build_contract()]
+    return [model_build_contract(), enum_build_contract(), literal_enum_build_contract(), module_name_taken_contract()]
 
 
 def import_filter_contract(which):
